@@ -250,6 +250,103 @@ def liveness_obligation(prog, tier):
     return ob
 
 
+def membership_obligation(prog, tier):
+    """s14_membership_changes: InnerNodeManage::update_nodes from source on a 3-node view {3, 7, 8} (local node = each of them), the new
+    membership being: the same nodes, one peer removed (either one), one node added (id 20). Oracle: afterwards the cached owner range is
+    the range of the new node set, and whenever it differs from the range before, the naming actor was sent exactly the new range."""
+    ob = {"engine": "smt", "harness": "s14_membership_changes", "encodes_files": FILES, "queries": 0, "solver_s": 0.0, "distinct": 0,
+          "encodes": ["InnerNodeManage::{update_nodes,update_nodes_index,update_process_range,get_current_process_range,refresh_process_range,get_this_node}"],
+          "bound": "3-node view, every local node; new membership: unchanged / either peer removed / one node added (symbolic choice)"}
+    t0 = time.time()
+    try:
+        it = rseval.Interp(prog)
+        it.lenient = True
+        it.fn_models["now_millis"] = lambda interp, args: 1_700_000_000_000
+        it.models[("NamingAddr", "do_send")] = lambda interp, recv, args: recv.sent.append(args[0]) or ()
+
+        class SyncSender:
+            def __init__(self):
+                self.ty = "SyncSenderAddr"
+        it.fn_models["ClusteSyncSender::new"] = lambda interp, args: Struct("ClusteSyncSenderNew", {})
+        it.models[("ClusteSyncSenderNew", "start")] = lambda interp, recv, args: SyncSender()
+        it.models[("SyncSenderAddr", "do_send")] = lambda interp, recv, args: ()
+        it.models[(None, "run_later")] = lambda interp, recv, args: ()
+        choice = z3.BitVec("new_membership", 8)
+        covers = {"a peer removed": 0, "a node added": 0, "membership unchanged": 0}
+        viol = None
+        npaths = 0
+        for local_pos in range(3):
+            def thunk(local_pos=local_pos):
+                st = build_state(3, local_pos, [z3.BoolVal(True)] * 3)
+                sink = NamingSink()
+                st["naming_actor"] = Some(sink)
+                st["cluster_sender"] = Some(Struct("ClusterSender", {}))
+                st["first_query_snapshot"] = True
+                for n_ in st["all_nodes"].values():
+                    n_["status"] = Enum("NodeStatus", "Valid")
+                it.call_method("InnerNodeManage", "update_nodes_index", st, [])
+                it.call_method("InnerNodeManage", "update_process_range", st, [])
+                before = (st["current_range"]["index"], st["current_range"]["len"])
+                peers = [i for i in range(3) if i != local_pos]
+                kind = None
+                for j, k_ in enumerate(["same", "remove-a", "remove-b"]):
+                    if it.branch(choice == j):
+                        kind = k_
+                        break
+                kind = kind or "add"
+                ids = [IDS[i] for i in range(3)]
+                if kind == "remove-a":
+                    ids.remove(IDS[peers[0]])
+                elif kind == "remove-b":
+                    ids.remove(IDS[peers[1]])
+                elif kind == "add":
+                    ids.append(20)
+                covers["membership unchanged" if kind == "same" else ("a node added" if kind == "add" else "a peer removed")] += 1
+                n0 = len(sink.sent)
+                it.call_method("InnerNodeManage", "update_nodes", st, [[(i, "addr-%d" % i) for i in ids], "ctx"])
+                have = (st["current_range"]["index"], st["current_range"]["len"])
+                want_r = it.call_method("InnerNodeManage", "get_current_process_range", st, [])
+                if sorted(st["all_nodes"].keys()) != sorted(ids):
+                    return ("violation", "after the membership change %s node %d knows the nodes %s" % (ids, IDS[local_pos], sorted(st["all_nodes"].keys())), "membership-not-applied")
+                if have != (want_r["index"], want_r["len"]):
+                    return ("violation", "after the membership change %s node %d answers ownership with range %s, the node set gives %s" % (ids, IDS[local_pos], have, (want_r["index"], want_r["len"])), "stale-owner-range")
+                if have != before:
+                    told = [m_ for m_ in sink.sent[n0:] if variant_name(m_) == "ClusterRefreshProcessRange"]
+                    ok_ = False
+                    for m_ in told:
+                        a_ = m_.payload if isinstance(m_, Enum) else getattr(m_, "args", None)
+                        if a_ and isinstance(a_[0], Struct) and (a_[0]["index"], a_[0]["len"]) == have:
+                            ok_ = True
+                    if not ok_:
+                        return ("violation", "the membership changed to %s and node %d now owns range (index %s of %s) instead of (index %s of %s), but its naming actor is not told: "
+                                "services it took over get no heartbeat supervision" % (ids, IDS[local_pos], have[0], have[1], before[0], before[1]), "naming-actor-range-stale")
+                return ("ok", None, None)
+            paths = it.explore(thunk)
+            npaths += len(paths)
+            for pc, r, exc in paths:
+                if exc is not None:
+                    viol = {"message": "panic in update_nodes: %s" % exc, "tags": ["panic"], "model": {}}
+                    break
+                if r[0] == "violation":
+                    viol = {"message": r[1], "tags": [r[2]], "model": {"local_node": IDS[local_pos]}}
+                    break
+            if viol:
+                break
+        ob["queries"] = it.queries
+        ob["solver_s"] = round(time.time() - t0, 1)
+        ob["sample"] = {"paths_explored": npaths, "covers": covers, "opaque_symbols": sorted(it.opaque_seen)[:12]}
+        missing = [c for c, n_ in covers.items() if n_ == 0]
+        if viol:
+            ob.update({"verdict": "violation", "message": viol["message"], "tags": viol["tags"], "counterexample": viol["model"]})
+        elif missing:
+            ob.update({"verdict": "inconclusive", "message": "reachability witness never reached: %s" % missing})
+        else:
+            ob.update({"verdict": "discharged", "distinct": npaths})
+    except rsparse.Unsupported as e:
+        ob.update({"verdict": "inconclusive", "message": "encoder met source it cannot encode: %s" % e})
+    return ob
+
+
 def run(tier, seed):
     t0 = time.time()
     obligations = []
@@ -338,6 +435,7 @@ def run(tier, seed):
         obligations.append(ob)
     try:
         obligations.append(liveness_obligation(prog, tier))
+        obligations.append(membership_obligation(prog, tier))
         obligations.append(validate_translator(prog, sizes, 4 if tier == "quick" else 16, seed))
     except rsparse.Unsupported as e:
         obligations.append({"engine": "smt", "harness": "s14_translator_validation", "verdict": "inconclusive", "message": str(e)})
